@@ -7,6 +7,8 @@ props, commit, what = sys.argv[1:4]
 full = subprocess.run(["git", "-C", "/repo", "rev-parse", commit], capture_output=True, text=True).stdout.strip()
 subj = subprocess.run(["git", "-C", "/repo", "log", "-1", "--format=%s", commit], capture_output=True, text=True).stdout.strip()
 kf = HOME / "known_findings.json"
+import fcntl
+_lock = open(HOME / ".known.lock", "w"); fcntl.flock(_lock, fcntl.LOCK_EX)
 k = json.loads(kf.read_text())
 for prop in props.split(","):
     k["findings"].append(dict(id=f"X-{prop}-{full[:8]}", property=prop, status="fixed", commit=full, subject=subj, what=what,
